@@ -27,8 +27,10 @@ sdriver.CHECKS["c08"] = check
 def family(ctx: Ctx) -> List[Tuple[str, str, Dict[str, Any]]]:
     T = lambda f: ("txn", f)  # noqa: E731
     full = []
+    pseudo_zero = "AAAAAAAAAAAAAAAAAAAAAAAAAAAAAAAAAAAAAAAAAAAAEVAL4QAJS7JHB4"  # tealer's ZERO_ADDRESS constant: a non-zero address (KF-C08-zero-address-constant)
     for f in ADDR:
         full += tg.addr_atoms(T(f), (("zero",), ("addr", tg.A1), ("addr", tg.ZERO), ("creator",), ("addr", tg.A2)))
+    full += tg.addr_atoms(T("RekeyTo"), (("addr", pseudo_zero),)) + tg.addr_atoms(T("CloseRemainderTo"), (("addr", pseudo_zero),))
     small = tg.addr_atoms(T("RekeyTo"), (("zero",), ("addr", tg.A1))) + tg.addr_atoms(T("Sender"), (("creator",), ("addr", tg.A2)))
     if ctx.quick:
         small = small[::2]
